@@ -275,3 +275,11 @@ Example ex_stats_two_workers_ticker :
   run_all [0; 2; 1; 2; 0; 1; 2; 2]%nat [thread_of (TWorker [(1, 2, 3); (1, 1, 3)]); thread_of (TWorker [(1, 2, 3)]); thread_of (TTicker 1)] s_empty
   = Ok (mkS [(1, 1)] [] []).
 Proof. vm_compute. reflexivity. Qed.
+(* connStats: accounting of a connection against the verbose ticker, one lock for both per-ASN maps *)
+Example ex_connstats_epoch :
+  run_all [0; 1; 0]%nat [thread_of (TConn true 64500 2); thread_of (TConnTicker 1)] s_empty = Ok (mkS5 [] [] [] [(64500, 1)] []).
+Proof. vm_compute. reflexivity. Qed.
+(* ... and what the same epoch change does to accounting that creates and increments in separate regions *)
+Example ex_connstats_split_panics :
+  run_all [0; 0; 1]%nat [mkT false (addreg_split_map MAsn4 64500); thread_of (TConnReset 1)] s_empty = Panic.
+Proof. vm_compute. reflexivity. Qed.
